@@ -149,8 +149,10 @@ def restoreOne (cwd : CPath) (overwrite : Bool) (e : Entry) : Prog Res := do
     | .error er => pure (.error er)
     | .ok () =>
       let fs ← read
-      -- --overwrite: an existing non-directory (a symlink to a directory included) is removed first
-      let cleared ← (if overwrite ∧ pLexists fs cwd e.loc ∧ (pIslink fs cwd e.loc ∨ ¬ pIsdir fs cwd e.loc) then
+      -- --overwrite: an existing non-directory (a symlink to a directory included) is removed first,
+      -- but only when the payload is there to take its place
+      let cleared ← (if overwrite ∧ pLexists fs cwd (pathOfBackupCopy e.info) ∧ pLexists fs cwd e.loc ∧
+                        (pIslink fs cwd e.loc ∨ ¬ pIsdir fs cwd e.loc) then
                        atPath cwd e.loc (fun er => pure (.error er)) fun p => removeFile p
                      else pure (.ok ()))
       match cleared with
